@@ -35,7 +35,17 @@ def stress(chk, n):
     tr = os.path.join(core.scratch(), "serve-trace.ndjson")
     rlog = os.path.join(core.scratch(), "race")
     s = core.run_harness(["servestress", "record", tr, n], race=True, timeout=1800,
-                         env={"VERIF_SEED": chk.seed, "GORACE": "log_path=%s exitcode=0 halt_on_error=0" % rlog}, ok_codes=(0,))
+                         env={"VERIF_SEED": chk.seed, "GORACE": "log_path=%s exitcode=0 halt_on_error=0" % rlog}, ok_codes=(0,), crash_ok=True)
+    if s.get("_crashed"):
+        # a fatal runtime error while serving (cannot be recovered by the harness): judged by where it happened
+        err = s["_stderr"]
+        first = err[err.find("fatal error:"):][:200].splitlines()[0]
+        frames = re.findall(r"^(github\.com/gookit/rux(?:/pkg/\w+)?\.\S+)\(", err, re.M)
+        if frames:
+            chk.violation(dict(kind="race", aspect="race", frames=frames[:4], what="the Go runtime aborted the stress run: %s in %s" % (first, ", ".join(frames[:3]))),
+                          dict(family="servestress", seed=chk.seed, fatal=first))
+            return
+        raise core.Inconclusive("stress harness crashed outside rux: %s" % first)
     chk.absorb(s, "servestress")
     const = dict(DEV, Reqs={"r1"}, KindOf=core.Sub("TKind"), GLen=0, GCap=0, MwLen=0, MwCap=0)
     cfgtxt = core.cfg(init="TraceInit", next="TraceNext", constants=const, postcondition="Post")
